@@ -37,6 +37,12 @@ Proof. vm_compute. reflexivity. Qed.
 Lemma handlers_counted : List.length operation_handlers = 21.
 Proof. reflexivity. Qed.
 
+(* Since 52cb625 _process_batch rolls the session back after an item that failed: whatever the item left
+   pending (also the INSERTs of a commit the database refused) is discarded before the next item runs. *)
+Definition failed_items_are_rolled_back : Prop := rolls_back_after engine_methods "_process_batch" "_process_operation" = true.
+Lemma batch_rolls_back : failed_items_are_rolled_back.
+Proof. vm_compute. reflexivity. Qed.
+
 (* The whole of process_request - placeholder reset, identity, version, batch - runs under the engine lock
    (@_synchronize on process_request itself, not on a part of it): the per-request fields of the shared engine
    object (the ID placeholder among them) cannot be reset by another connection in the middle of a batch.
@@ -74,4 +80,9 @@ Example order_loop_once_vs_many :
   late_raises [("h", Seq [CallOnce "each" Kloaded; Commit]); ("g", Seq [Call "each" Kloaded; Commit]);
                ("each", Seq [Loop (Seq [If (Seq [Raise "each: refused"]) (Seq []); MutParam])])] ["h"; "g"]
   = [("g", ["each: refused"])].
+Proof. vm_compute. reflexivity. Qed.
+
+Example order_flags_raise_after_commit :
+  late_raises [("h", Seq [Mut; Commit; If (Seq [Raise "h: bad answer"]) (Seq []); Ret])] ["h"]
+  = [("h", ["after a commit that took effect - h: bad answer"])].
 Proof. vm_compute. reflexivity. Qed.
